@@ -343,6 +343,21 @@ for _k, _v in {
     "C16": " Also: parse_expr returns only type-checked trees (typed-tree), the invariant the counted typing unwraps rest on.",
 }.items():
     ADDED[_k] = (ADDED.get(_k, "") + _v).strip()
+# round 13 and the observations triaged after round 12
+for _k, _v in {
+    "C02": " Also: the loop counter starts at the kind of start + step (start-kind).",
+    "C03": " Also: diagnostics name the source file (diagnostic-file).",
+    "C05": " Also: the constant folder folds nothing but the table operators (fold-scope).",
+    "C06": " Also: source digits are labelled int only if they fit i32 (literal-kind); only table operators are folded (only-tables).",
+    "C07": " Also: the modify target carries the captured variable's declared type; fields supply no variable; a declaration supplies only what follows it (supply-order).",
+    "C09": " Also: the start value of a from loop is promoted to the counter's kind (start-promotion).",
+    "C11": " Also: export instructions are emitted for module-level declarations only (module-level).",
+    "C13": " Also: which built-ins return the receiver and which a new container (result-identity).",
+    "C15": " Also: parked operands are values, not views (parked-by-value).",
+    "C16": " Also: the folder's integer operations cannot panic (folder-arith); results of the code generator are not unwrapped and Expr::for_type has no assertions (codegen-errors).",
+    "C17": " Also: byte offsets into text need an is_char_boundary guard.",
+}.items():
+    ADDED[_k] = (ADDED.get(_k, "") + _v).strip()
 # round 12 and the observations triaged after round 11
 for _k, _v in {
     "C01": " Also: a blank `return` is not refused in a function that yields void (blank-return).",
